@@ -299,8 +299,11 @@ def run(tier, seed):
     sub_jobs = []
     for j, r in zip(root_jobs, roots):
         sub_jobs.append({"rxns": j["rxns"], "iso": j["iso"], "root": [], "bound": 0})
+        # two deviations: every batch inline, the first batch also with per-task copies; one deviation elsewhere
+        # (the full 3 x 3 product at two deviations is 95 000 executions = 45 CPU-minutes x 16 and showed one outcome per batch)
+        b2 = bound if (j["iso"] == "inline" or (j["iso"] == "task" and j["rxns"] == SCHED_BATCHES[0])) else 1
         for d in r["roots"]:
-            sub_jobs.append({"rxns": j["rxns"], "iso": j["iso"], "root": d, "bound": bound})
+            sub_jobs.append({"rxns": j["rxns"], "iso": j["iso"], "root": d, "bound": b2})
     rs = pmap("checks.c06:schedule_subtree", sub_jobs, chunk=2 if not thorough else 1, seed=seed, timeout=14400)
     n_exec = 0
     outcomes = set()
@@ -337,7 +340,7 @@ def run(tier, seed):
         "distinct_nontrivial": len(subs) + n_exec,
         "rule": "(a) every ordered sub-batch of size 1..2{} (triples and 3..5-tuples of MCS-bound reactions also with n_jobs 2 and 3) of the 16-reaction base set, the 17-reaction set under every "
                 "batch size; (b) for 3 batches of 3 rows every Parallel call x every non-default task order "
-                "(all 3! orders) with <= {} order deviation(s) x isolation {}; (c) real joblib with n_jobs in {}; "
+                "(all 3! orders) with <= {} order deviation(s) x isolation {} (two deviations: inline for every batch and per-task copies for the first batch; one deviation otherwise); (c) real joblib with n_jobs in {}; "
                 "(d) repeated runs on one instance.  distinct_outcomes = distinct row tables seen over all schedules "
                 "(1 per batch and isolation means no schedule changed anything).".format(
                     " and every triple" if thorough else " and 128 triples of a cyclic covering design", bound, list(isos), list(ks)),
